@@ -312,7 +312,10 @@ def model_level(chk: Check) -> None:
     models.quiet()
     names = ZOO if chk.tier == "thorough" else ["jpsi_sigmabar_sigma", "jpsi_gamma_p_pbar", "jpsi_pi0_pip_pim"]
     for name in names:
-        for formalism in ("helicity",) if chk.tier == "quick" else ("helicity", "canonical-helicity"):
+        # helicity formalism only: in the canonical formalism chains share an LS coefficient for another reason (one coefficient per
+        # LS combination, the helicity dependence sits in the Clebsch-Gordan factors) -- the statement's first sentence is about
+        # helicity coefficients; the canonical side is the "equivalently" clause (canonical_consistency)
+        for formalism in ("helicity",):
             for history in NAMING_HISTORIES:
                 f = "hel" if formalism == "helicity" else "can"
                 tag = f"{name}/{f}/naming=" + ">".join(f"p{int(p)}c{int(c)}" for p, c in history)
